@@ -201,6 +201,24 @@ def deliver_object(me, E, msg):
         m.Message.parse = real
 
 
+def deliver_object_ctl(ctl, E, msg, my_addr, peer_addr):
+    """same at controller level: both the header parse and the full parse return the prepared object"""
+    m = MODS['message']
+    real = m.Message.__dict__['parse']
+    sentinel = b'<object delivery>'
+
+    def parse(cls, data, header_only=False, crypto=None):
+        if data is sentinel:
+            return msg
+        return real.__func__(cls, data, header_only, crypto)
+    m.Message.parse = classmethod(parse)
+    try:
+        with E:
+            return ctl.dispatch_message(sentinel, my_addr, peer_addr)
+    finally:
+        m.Message.parse = real
+
+
 def stop_at(obj, name, what):
     def stop(*a, **k):
         raise Reached(what, (a, k))
